@@ -600,3 +600,54 @@ Proof.
   apply (tr_lbuf_next m lb bln lbs lines br bo r o dir d fuel); try assumption; try (intro H; first [apply Nr|apply No]; right; exact H);
     unfold i32; destruct Hd as [-> | ->]; lia.
 Qed.
+
+(* ------------------------------------------------------------------ lbuf_wordlast *)
+Definition st_val1 (s : bool) : val := VInt (if s then 1 else 0).
+Definition wl_loop : stmt := match fn_body cf_lbuf_wordlast with SSeq _ (SSeq w _) => w | _ => SSkip end.
+Definition wl_rest : stmt := match fn_body cf_lbuf_wordlast with SSeq _ (SSeq _ r) => r | _ => SSkip end.
+
+(* read *row and *off, call lbuf_chr *)
+Ltac rd_chr R Hsm Hf Hr Ho Pr Po d :=
+  rewrite (load_cell _ _ _ Hr); xstep; rewrite wrap_I32_id by lia;
+  rewrite (load_cell _ _ _ Ho); xstep; rewrite wrap_I32_id by lia;
+  rewrite (tr_lbuf_chr _ _ _ _ _ _ _ d _ R Hsm Hf); xstep.
+
+Lemma land_test k kind : (Z.land (Z.of_N k) (Z.of_N kind) =? 0) = (N.land k kind =? 0)%N.
+Proof. rewrite of_N_land. destruct (N.eqb_spec (N.land k kind) 0) as [->|E]; [reflexivity|]. apply Z.eqb_neq. lia. Qed.
+
+Lemma wl_loop_ok F d lb bln lbs lines br bo kind dir fuel2 : lines_small lines -> (maxlen lines < F)%nat -> dir_ok dir ->
+  forall mf m r o fuel res, mot_mem m lb bln lbs lines br bo -> cell_at m br r -> cell_at m bo o -> pos_ok r o ->
+  (mf < fuel)%nat -> (0 < fuel2)%nat ->
+  wordlast_loop mf (map chop lines) kind dir r o = Some res ->
+  match exec (callf cprog F (S (S (S (S d))))) fuel wl_loop
+             (mkst [VPtr lb 0; VInt (Z.of_N kind); VInt dir; VPtr br 0; VPtr bo 0] m) with
+  | ONormal st1 => exec (callf cprog F (S (S (S (S d))))) fuel2 wl_rest st1
+  | o => o
+  end = let '(s, r', o') := res in
+        OReturn (st_val1 s) (mkst [VPtr lb 0; VInt (Z.of_N kind); VInt dir; VPtr br 0; VPtr bo 0] (set_pos m br bo r' o')).
+Proof.
+  intros Hsm HF Hd. set (b := map chop lines).
+  induction mf as [|mf IH]; intros m r o fuel res MM Hr Ho Hp Hf Hf2 Hres; [discriminate|].
+  destruct fuel as [|fuel]; [lia|]. destruct fuel2 as [|fuel2']; [lia|].
+  pose proof MM as [R Hl Hne Nr No Lr Lo]. destruct Hp as [Pr Po].
+  cbn [wordlast_loop] in Hres. unfold kmatch in Hres. fold b in Hres.
+  unfold wl_loop, wl_rest; cbn [fn_body cf_lbuf_wordlast]. rewrite exec_while. xstep.
+  rd_chr R Hsm HF Hr Ho Pr Po d.
+  rewrite (kind_at m lb bln lbs lines r o (S (S d)) F R Hl). xstep. fold b. rewrite land_test.
+  destruct (N.land (kindof b r o) kind =? 0)%N eqn:Ek; cbn [negb] in Hres |- *; xstep.
+  - (* the class ended: step back *)
+    rd_chr R Hsm HF Hr Ho Pr Po d.
+    rewrite (kind_at m lb bln lbs lines r o (S (S d)) F R Hl). xstep. fold b. rewrite land_test, Ek. xstep.
+    assert (Hnd : chk I32 (- dir) = Ok (- dir)) by (apply chk_I32; destruct Hd as [-> | ->]; lia). rewrite Hnd. xstep.
+    rewrite (next_call m lb bln lbs lines br bo r o (- dir) d F MM Hsm HF Hr Ho (conj Pr Po))
+      by (destruct Hd as [-> | ->]; [right|left]; reflexivity).
+    fold b. destruct (lbuf_next b (- dir) r o) as [[s1 r1] o1]. injection Hres as <-. xstep. reflexivity.
+  - rewrite (next_call m lb bln lbs lines br bo r o dir d F MM Hsm HF Hr Ho (conj Pr Po) Hd).
+    fold b. destruct (lbuf_next b dir r o) as [[s1 r1] o1] eqn:En. xstep.
+    destruct s1; cbn [st_val]; xstep.
+    + injection Hres as <-. reflexivity.
+    + destruct (mot_mem_set_pos m lb bln lbs lines br bo r1 o1 MM) as (MM1 & Hr1 & Ho1).
+      pose proof (lbuf_next_pos_ok lines dir r o _ _ _ Hsm (la_nonul _ _ _ _ _ R) Hd (conj Pr Po) En) as Hp1.
+      specialize (IH (set_pos m br bo r1 o1) r1 o1 fuel res MM1 Hr1 Ho1 Hp1 ltac:(lia) ltac:(lia) Hres).
+      destruct res as [[s r'] o']. rewrite set_pos_set_pos in IH by assumption. exact IH.
+Qed.
